@@ -303,13 +303,17 @@ def swap_trim_coordinates(trim):
     :param trim: trim curve (spline geometry, freeform geometry or a container of them)
     :type trim: abstract.Geometry
     """
+    # Swapping the coordinates mirrors the curve, i.e. changes its orientation. The trim curves are also reversed since the
+    # sense of a trim curve can be determined from its orientation (see the trimming module).
     if trim.type == "container":
         for t in trim:
             swap_trim_coordinates(t)
+        trim.reset()
     elif trim.type == "freeform":
-        trim.evaluate(points=[[pt[1], pt[0]] for pt in trim.evalpts])
+        trim.evaluate(points=[[pt[1], pt[0]] for pt in reversed(trim.evalpts)])
     else:
         trim.ctrlpts = [[pt[1], pt[0]] for pt in trim.ctrlpts]
+        trim.reverse()
 
 
 def find_knot_span(degree, knot_vector, num_ctrlpts, knot):
